@@ -58,6 +58,16 @@ theorem loadExt_updCell_pres (st : St) (c d : ObjId) (f : CellSt → CellSt)
   · subst_vars; exact hf _
   · exact ⟨rfl, rfl, rfl⟩
 
+theorem linkCell_cellOf (st : St) (o x : ObjId) :
+    ((st.linkCell o).cellOf x).geom = (st.cellOf x).geom ∧ ((st.linkCell o).cellOf x).surfs = (st.cellOf x).surfs ∧
+    ((st.linkCell o).cellOf x).comps = (st.cellOf x).comps := by
+  unfold St.linkCell
+  simp only [updCell_cellOf]
+  split <;> (try subst_vars) <;> exact ⟨rfl, rfl, rfl⟩
+
+theorem loadExt_linkCell (st : St) (c d : ObjId) : LoadExt c st (st.linkCell d) :=
+  ⟨fun x _ => linkCell_cellOf st d x, rfl, rfl⟩
+
 theorem cellSurfAppend_load (st : St) (c s : ObjId) :
     LoadExt c st (cellSurfAppend st c s).1 ∧
     ((cellSurfAppend st c s).1.cellOf c).comps = (st.cellOf c).comps ∧
@@ -82,11 +92,11 @@ theorem cellCompAppend_load (st : St) (c d : ObjId) :
   · exact ⟨LoadExt.refl c st, rfl, fun h => by cases h⟩
   · have e1 := loadExt_updCell st c (fun cs => { cs with comps := cs.comps ++ [d] })
     split
-    · have e2 := loadExt_updCell_pres (st.updCell c (fun cs => { cs with comps := cs.comps ++ [d] })) c d
-        (fun ds => { ds with link := true, contLinked := true }) (fun _ => ⟨rfl, rfl, rfl⟩)
+    · have e2 := loadExt_linkCell (st.updCell c (fun cs => { cs with comps := cs.comps ++ [d] })) c d
+      have hc := linkCell_cellOf (st.updCell c (fun cs => { cs with comps := cs.comps ++ [d] })) d c
       refine ⟨e1.trans e2, ?_, fun _ => ?_⟩
-      · simp only [updCell_cellOf]; split <;> (try subst_vars) <;> simp
-      · simp only [updCell_cellOf]; split <;> (try subst_vars) <;> simp
+      · rw [hc.2.1]; simp
+      · rw [hc.2.2]; simp
     · exact ⟨e1, by simp, fun _ => by simp⟩
 
 /-- the numbers of the problem's surfaces are pairwise different -/
